@@ -171,6 +171,7 @@ func C20(c *core.Ctx) {
 	c20Pruning(c)
 	// ---- R20.4 every node gets its own list storage
 	c20FreshLists(c, pkg)
+	c20Round4(c, pkg)
 
 	// ---- R20.2 onData gates
 	if od := c.Fn("R20.2", "std/engine/basic", "Engine", "onData"); od != nil {
@@ -770,7 +771,17 @@ func c20Pruning(c *core.Ctx) {
 					return false
 				}
 				r, a := core.CallArgs(ci.Common())
-				return core.Same(r, node) && len(a) == 1 && core.IsNilConst(core.Strip(a[0]))
+				if !core.Same(r, node) || len(a) != 1 {
+					return false
+				}
+				if core.IsNilConst(core.Strip(a[0])) {
+					return true
+				}
+				// or the list of the entries that were NOT resolved (a Nack names one
+				// implicit digest; the node also holds the Interests with another): a list
+				// built here, to which an entry is appended only on paths of the scan on
+				// which its callback is not invoked
+				return survivorsOnly(fn, a[0])
 			}) {
 				okClr = false
 			}
@@ -780,6 +791,62 @@ func c20Pruning(c *core.Ctx) {
 		}
 		c.Decide(okClr, "R20.3", "clear-exact-node-then-prune:"+spec[0], p.Pos(fn.Pos()), "the node found by ExactMatch is emptied (SetValue(nil)) and then pruned with DeleteIf", spec[1]+" does not empty exactly the matched node before pruning with DeleteIf (entries of other names are affected, or the node is never released)")
 	}
+}
+
+// survivorsOnly: lst is built in fn from make/nil by appends, and no append of an element
+// is followed, inside the same iteration of its loop, by an invocation of that element's
+// callback (the resolved entries are exactly the ones left out).
+func survivorsOnly(fn *ssa.Function, lst ssa.Value) bool {
+	seen := map[ssa.Value]bool{}
+	ok := true
+	nApp := 0
+	var walk func(v ssa.Value)
+	walk = func(v ssa.Value) {
+		v = core.Strip(v)
+		if seen[v] {
+			return
+		}
+		seen[v] = true
+		switch x := v.(type) {
+		case *ssa.MakeSlice, *ssa.Const:
+		case *ssa.Phi:
+			for _, e := range x.Edges {
+				walk(e)
+			}
+		case *ssa.Call:
+			b, isB := x.Call.Value.(*ssa.Builtin)
+			if !isB || b.Name() != "append" || len(x.Call.Args) != 2 {
+				ok = false
+				return
+			}
+			nApp++
+			walk(x.Call.Args[0])
+			// the appended element's callback must not be invoked later in this iteration
+			h := loopHeader(x.Block())
+			cut := map[core.Edge]bool{}
+			if h != nil {
+				for _, pr := range h.Preds {
+					cut[core.Edge{From: pr, To: h}] = true
+				}
+			}
+			core.Instrs(fn, func(in ssa.Instruction) {
+				cl, isCall := in.(*ssa.Call)
+				if !isCall || cl.Call.IsInvoke() || cl.Call.StaticCallee() != nil {
+					return
+				}
+				if _, isCb := core.FieldOf(cl.Call.Value, "callback"); !isCb {
+					return
+				}
+				if core.ReachInstrFrom(core.After(x), in, cut, nil) != nil {
+					ok = false
+				}
+			})
+		default:
+			ok = false
+		}
+	}
+	walk(lst)
+	return ok && nApp > 0
 }
 
 // c20FreshLists decides R20.4: the list passed to SetValue is built on storage of its own
@@ -891,4 +958,186 @@ func baseName(f *ssa.Function) string {
 		return o.Name()
 	}
 	return f.Name()
+}
+
+// injectiveComponentString: the string forms of a name component that are one-to-one with
+// the component (type and value bytes). Confirmed by reading std/encoding:
+// CanonicalString always prints "<type>=<escaped value>"; String prints the numeric
+// conventions (segment, byte offset, version, timestamp, sequence number) by VALUE, so the
+// values 0x05 and 0x00 0x05 both print as "seg=5" — two components, one string.
+var injectiveComponentString = map[string]bool{"CanonicalString": true}
+
+// c20Round4 — rules added for defects found on the unmodified tree by a bug-hunting agent:
+//
+// R20.6 the pending-Interest / handler trie keys its children by a string form of the
+// component that is one-to-one with the component; otherwise Data resolves an Interest
+// with a different name and an Interest reaches a handler that is not at a prefix of it.
+//
+// R20.5 when the transmission of an expressed Interest fails, Express withdraws the
+// pending entry and its timer on that path (the returned error is the resolution; the
+// callback must not fire on top of it).
+//
+// R20.7 the three sites that deal with an Interest ending in an implicit digest agree:
+// Express files it under the name without the digest and keeps the digest in the entry;
+// onData compares the entry's digest; onNack must strip the digest for the node lookup
+// and resolve only entries whose digest equals the Nacked name's.
+func c20Round4(c *core.Ctx, pkg string) {
+	p := c.P
+	// ---- R20.6
+	nKeys := 0
+	// the generic trie's instantiations are not package members: discover them as static
+	// callees of the package's functions (transitively)
+	var trieFns []*ssa.Function
+	seenT := map[*ssa.Function]bool{}
+	var visitT func(f *ssa.Function)
+	visitT = func(f *ssa.Function) {
+		if f == nil || seenT[f] || f.Blocks == nil {
+			return
+		}
+		seenT[f] = true
+		trieFns = append(trieFns, f)
+		core.Instrs(f, func(in ssa.Instruction) {
+			if ci, ok := in.(ssa.CallInstruction); ok {
+				if cal := ci.Common().StaticCallee(); cal != nil && cal.Origin() != nil {
+					visitT(cal)
+				}
+			}
+		})
+	}
+	for _, fn := range p.FuncsIn(pkg) {
+		visitT(fn)
+	}
+	sort.Slice(trieFns, func(i, j int) bool { return core.FuncName(trieFns[i]) < core.FuncName(trieFns[j]) })
+	for _, fn := range trieFns {
+		if strings.HasSuffix(p.File(fn.Pos()), "_test.go") {
+			continue
+		}
+		check := func(in ssa.Instruction, m, key ssa.Value) {
+			if _, ok := core.FieldOf(m, "chd"); !ok {
+				return
+			}
+			k := core.Strip(core.ResolveBoundary(core.Strip(key)))
+			if _, isKeyField := core.FieldOf(k, "key"); isKeyField {
+				return // the key the node was linked under
+			}
+			if _, isPar := k.(*ssa.Parameter); isPar {
+				return // newTrieNode(key, parent): decided at the caller's key
+			}
+			nKeys++
+			c.Funcs[core.FuncName(fn)] = true
+			okK, how := false, describeValue(k)
+			if cl, isCall := k.(*ssa.Call); isCall {
+				if id, okID := core.Callee(&cl.Call); okID {
+					how = id.Name
+					okK = id.Recv == "Component" && injectiveComponentString[id.Name]
+				}
+			}
+			c.Decide(okK, "R20.6", "trie-key-one-to-one:"+baseName(fn)+":"+how, c.Pos(in), "children are keyed by a one-to-one string form of the component", "the name trie keys a child by "+how+" of the component, which is not one-to-one (the numeric conventions print 0x05 and 0x00 0x05 alike): Data resolves a pending Interest with a different name, and an Interest is handed to a handler that is not attached at a prefix of its name")
+		}
+		core.Instrs(fn, func(in ssa.Instruction) {
+			switch x := in.(type) {
+			case *ssa.Lookup:
+				check(in, x.X, x.Index)
+			case *ssa.MapUpdate:
+				check(in, x.Map, x.Key)
+			}
+		})
+	}
+	c.Floor("R20.6", "child-map accesses keyed by a component string", nKeys, 2)
+
+	// ---- R20.5
+	if ex := c.Fn("R20.5", "std/engine/basic", "Engine", "Express"); ex != nil {
+		var send ssa.Value
+		core.InstrsDeep(ex, func(in ssa.Instruction) {
+			if cl, ok := in.(*ssa.Call); ok && cl.Call.IsInvoke() && cl.Call.Method.Name() == "Send" {
+				send = cl
+			}
+		})
+		if send == nil {
+			c.Und("R20.5", "failed-send-withdraws-entry", p.Pos(ex.Pos()), "no face.Send invoke found in Express")
+		} else {
+			failed := atomNonNil("Send error", send)
+			withdrawn, cancelled := false, false
+			for _, f := range core.EdgeFactsDeep(ex, failed) {
+				if !f.Holds {
+					continue
+				}
+				for _, g := range core.Reach(ex) {
+					core.Instrs(g, func(in ssa.Instruction) {
+						ci, ok := in.(ssa.CallInstruction)
+						if !ok {
+							return
+						}
+						reach := false
+						if g == f.E.To.Parent() {
+							reach = core.ReachInstrFrom(core.Point{Block: f.E.To, Idx: 0}, in, nil, nil) != nil
+						} else if g.Parent() == f.E.To.Parent() || g.Parent() == ex {
+							// closure: reachable when its MakeClosure / call is reachable from the edge
+							for _, r := range *g.Referrers() {
+								_ = r
+							}
+							core.Instrs(f.E.To.Parent(), func(y ssa.Instruction) {
+								if mc, isMC := y.(*ssa.MakeClosure); isMC && mc.Fn == ssa.Value(g) {
+									if core.ReachInstrFrom(core.Point{Block: f.E.To, Idx: 0}, y, nil, nil) != nil {
+										reach = true
+									}
+								}
+							})
+						}
+						if !reach {
+							return
+						}
+						if id, okID := core.Callee(ci.Common()); okID && id.Name == "SetValue" {
+							withdrawn = true
+						}
+						if !ci.Common().IsInvoke() && ci.Common().StaticCallee() == nil {
+							if _, isTC := core.FieldOf(ci.Common().Value, "timeoutCancel"); isTC {
+								cancelled = true
+							}
+						}
+					})
+				}
+			}
+			c.Decide(withdrawn && cancelled, "R20.5", "failed-send-withdraws-entry", c.Pos(send.(ssa.Instruction)), "on the Send-error path the pending entry is taken out of its node and its timer cancelled", "Express returns the Send error but leaves the pending entry and its timer in place: the callback later fires (timeout) on top of the error — the Interest resolves twice, and a caller that stopped listening after the error blocks the engine")
+		}
+	}
+
+	// ---- R20.7
+	feature := func(fn *ssa.Function) (typeTest, digestCmp bool) {
+		impl, _ := lookupConst(p, "std/encoding", "TypeImplicitSha256DigestComponent")
+		core.InstrsDeep(fn, func(in ssa.Instruction) {
+			if b, ok := in.(*ssa.BinOp); ok && (b.Op == token.EQL || b.Op == token.NEQ) {
+				for _, pair := range [][2]ssa.Value{{b.X, b.Y}, {b.Y, b.X}} {
+					if k, isC := core.ConstInt(pair[1]); isC && k == impl {
+						if _, isTyp := core.FieldOf(core.StripConv(pair[0]), "Typ"); isTyp {
+							typeTest = true
+						}
+					}
+				}
+			}
+			if ci, ok := in.(ssa.CallInstruction); ok {
+				if id, okID := core.Callee(ci.Common()); okID && id.Pkg == "bytes" && id.Name == "Equal" {
+					for _, a := range ci.Common().Args {
+						if _, isD := core.FieldOf(a, "impSha256"); isD {
+							digestCmp = true
+						}
+					}
+				}
+			}
+		})
+		return
+	}
+	ex := c.Fn("R20.7", "std/engine/basic", "Engine", "Express")
+	od := c.Fn("R20.7", "std/engine/basic", "Engine", "onData")
+	on := c.Fn("R20.7", "std/engine/basic", "Engine", "onNack")
+	if ex != nil && od != nil && on != nil {
+		exT, _ := feature(ex)
+		_, odC := feature(od)
+		onT, onC := feature(on)
+		if !exT || !odC {
+			c.Ok("R20.7", "nack-honours-implicit-digest", p.Pos(on.Pos()), "Express does not file digest Interests separately / onData does not compare digests: nothing for onNack to agree with")
+		} else {
+			c.Decide(onT && onC, "R20.7", "nack-honours-implicit-digest", p.Pos(on.Pos()), "onNack strips a trailing implicit digest for the node lookup and compares the entries' digests, like Express and onData", "Express files an Interest that ends in an implicit digest under the name without it and onData compares the entry's digest, but onNack looks up the full Nacked name and resolves every entry of the node: a Nack for /N resolves the pending /N/sha256digest=X Interests (their Data then finds nothing pending) and a Nack for /N/sha256digest=X is dropped as unknown")
+		}
+	}
 }
